@@ -66,7 +66,7 @@ func (f *g2lFn) initInOut(fn *types.Func, names []string) {
 				}
 			}
 		}
-		if v != nil && f.g.nonNilSlice(v.Type()) { // go2lean_effects.go: an in-out slice of pointees
+		if v != nil && f.g.effectsOn() && f.g.nonNilSlice(v.Type()) { // go2lean_effects.go: an in-out slice of pointees
 			f.mutated[v] = true
 			f.inOut = append(f.inOut, v)
 			continue
@@ -75,6 +75,9 @@ func (f *g2lFn) initInOut(fn *types.Func, names []string) {
 			f.fail("in-out parameter `%s` is not a pointer parameter of the function", n)
 		}
 		if !f.g.paramIsVal(fn, idx) {
+			if !f.g.effectsOn() {
+				f.fail("in-out parameter `%s` is used other than by dereference (nil test, stored, passed on)", n)
+			}
 			if !f.g.onlyNilTested(fn, v) { // go2lean_effects.go: a nil-tested in-out pointer stays an Option
 				f.fail("in-out parameter `%s` is used other than by dereference or nil test (stored, passed on)", n)
 			}
@@ -107,7 +110,7 @@ func (f *g2lFn) inOutResult(resT string, nres int) string {
 	if nres == 1 {
 		parts = []string{g2lPar(resT)}
 	}
-	if nres == 0 { // go2lean_effects.go: a function without result returns its in-out parameters only
+	if nres == 0 && f.g.effectsOn() { // go2lean_effects.go: a function without result returns its in-out parameters only (go2lean_own.go: Unit × them)
 		parts = nil
 	}
 	for _, v := range f.inOut {
@@ -171,6 +174,9 @@ func (f *g2lFn) mapAssign(x *ast.IndexExpr, val string, ind int) ([]string, bool
 
 // builtinOther: make(map[K]V) and make(map[K]V, n).
 func (f *g2lFn) builtinOther(name string, c *ast.CallExpr) (string, bool) {
+	if s, ok := f.builtinOwn(name, c); ok { // go2lean_own.go (Own configurations): new(T), make([]T, n)
+		return s, true
+	}
 	if name != "make" || len(c.Args) < 1 || !f.g.cfg.Maps {
 		return "", false
 	}
@@ -239,7 +245,8 @@ func (f *g2lFn) primCall(c *ast.CallExpr, fn *types.Func) (string, bool) {
 			args = append(args, "_")
 			continue
 		}
-		if sig.Variadic() && i >= ps.Len()-1 && !(f.g.refsOn() && c.Ellipsis.IsValid() && i == ps.Len()-1) { // go2lean_refs.go: f(xs...) passes the slice
+		if sig.Variadic() && i >= ps.Len()-1 && !(f.g.refsOn() && c.Ellipsis.IsValid() && i == ps.Len()-1) && // go2lean_refs.go: f(xs...) passes the slice
+			!(c.Ellipsis.IsValid() && f.ellipsisOK(c)) { // go2lean_env.go
 			f.fail("the template of primitive `%s` mentions a variadic argument", key)
 		}
 		args = append(args, f.callArgs(fn, c.Args[i:i+1], true)[0])
